@@ -97,6 +97,10 @@ inline Mat make_data(const Case& c)
         for (int j = 0; j < N; ++j)
             for (int i = 0; i < q; ++i)
                 Z(i, j) = g.uni(-1, 1) * (1 + i);
+        // optional elongation: the extents of the q intrinsic directions spread geometrically over a factor `aniso`
+        if (c.has("aniso") && q > 1)
+            for (int i = 0; i < q; ++i)
+                Z.row(i) *= std::pow(c.d("aniso", 1.0), -(double)i / (q - 1)) / (1 + i);
         X = embed_isometric(Z, D, g, c.d("offset", 1.0));
     }
     else if (kind == "mix")
